@@ -188,6 +188,8 @@ def bind(repo):
     T.EXPLORED = getattr(ga, "EXPLORED", "explored")
     T.PARTITION = getattr(ga, "PARTITION", "partition")
     T.X = getattr(ga, "X_COORD", "x_coord")
+    T.Y = getattr(ga, "Y_COORD", "y_coord")
+    T.Z = getattr(ga, "Z_COORD", "z_coord")
     T.CHG = getattr(ga, "CHG", "chg")
     T.BOND_TYPE = getattr(ga, "BOND_TYPE", "bond_type")
     T.file_modes = _FileModes(repo)
@@ -343,21 +345,24 @@ def snap_diff(snap, g, tolerate_new_node_keys=False):
 # --------------------------------------------------------------------------
 # structural monitors (M12 canon clause, M16 permute clause)
 # --------------------------------------------------------------------------
+def _pos(d):
+    return (d.get(T.X, 0), d.get(T.Y, 0), d.get(T.Z, 0))
+
+
 def _tracer_map(g, h):
-    """node of g -> node of h via the unique x coordinate; None + reason if impossible."""
-    X = T.X
+    """node of g -> node of h via the unique coordinate triple; None + reason if impossible."""
     hx = {}
     for n, d in h.nodes(data=True):
-        if X not in d:
-            return None, f"result node {n} lost its coordinate"
-        if d[X] in hx:
-            return None, f"two result nodes carry coordinate {d[X]}"
-        hx[d[X]] = n
+        p = _pos(d)
+        if p in hx:
+            return None, f"two result nodes carry position {p}"
+        hx[p] = n
     f = {}
     for n, d in g.nodes(data=True):
-        if d.get(X) not in hx:
-            return None, f"atom {n} (x={d.get(X)}) has no counterpart in the result"
-        f[n] = hx[d[X]]
+        p = _pos(d)
+        if p not in hx:
+            return None, f"atom {n} (position {p}) has no counterpart in the result"
+        f[n] = hx[p]
     if len(set(f.values())) != len(f):
         return None, "renaming is not one-to-one"
     return f, None
@@ -780,6 +785,16 @@ def _abort_probes(sim, frame):
 # operations
 # --------------------------------------------------------------------------
 def _set_tracer(g):
+    """Atoms are traced through renamings by their position.  Where the positions of
+    a freshly created molecule are not pairwise different (numerically), the
+    harness - acting as the caller - spreads the x coordinates."""
+    pos = [_pos(d) for _, d in g.nodes(data=True)]
+    try:
+        unique = len(set(pos)) == len(pos)
+    except TypeError:
+        unique = False
+    if unique:
+        return
     X = T.X
     for i, n in enumerate(list(g.nodes)):
         g.nodes[n][X] = 1000.5 + i
@@ -1041,8 +1056,7 @@ def _do_edit(sim, cl, i, op, g):
     how = op["how"]
     nodes = list(h.nodes)
     edges = list(h.edges)
-    Y = getattr(T.tucan.graph_attributes, "Y_COORD", "y_coord")
-    Z = getattr(T.tucan.graph_attributes, "Z_COORD", "z_coord")
+    Y, Z = T.Y, T.Z
     if how in ("chg", "all"):
         for n in nodes:
             if r.random() < 0.5:
@@ -1053,9 +1067,18 @@ def _do_edit(sim, cl, i, op, g):
         for u, v in edges:
             h.edges[u, v][T.BOND_TYPE] = r.choice([1, 2, 3, 4])
     if how in ("coords", "all"):
+        old = {n: (h.nodes[n].get(Y), h.nodes[n].get(Z)) for n in nodes}
         for n in nodes:
-            h.nodes[n][Y] = round(r.uniform(-9, 9), 4)
-            h.nodes[n][Z] = round(r.uniform(-9, 9), 4)
+            h.nodes[n][Y] = r.choice([round(r.uniform(-9, 9), 4), 0.0, -0.0, 0, 1.5])
+            h.nodes[n][Z] = r.choice([round(r.uniform(-9, 9), 4), 0.0, -0.0, 0])
+        pos = [_pos(h.nodes[n]) for n in nodes]
+        if len(set(pos)) != len(pos):  # the tracer must stay unique: undo
+            for n in nodes:
+                for key, v in zip((Y, Z), old[n]):
+                    if v is None:
+                        h.nodes[n].pop(key, None)
+                    else:
+                        h.nodes[n][key] = v
     if inplace:
         j = op["arg"]
         cl.retired.add(j)
@@ -1149,7 +1172,8 @@ def run_spec(spec):
     traced = bool(spec.get("trace", True))
 
     # seams
-    sim.tmpdir = f"/dev/shm/tucansim-{os.getpid()}"
+    shm = "/dev/shm" if os.path.isdir("/dev/shm") and os.access("/dev/shm", os.W_OK) else (os.environ.get("TMPDIR") or "/tmp")
+    sim.tmpdir = os.path.join(shm, f"tucansim-{os.getpid()}")
     os.makedirs(sim.tmpdir, exist_ok=True)
     try:
         if spec.get("clock_frozen"):
